@@ -199,8 +199,11 @@ func runC18(e *core.Env) {
 			en.Allow = allowPool[e.Choose("gen", len(allowPool), "allow")]
 			en.Deny = denyPool[e.Choose("gen", len(denyPool), "deny")]
 		}
-		if e.Choose("gen", 4, "platform") == 3 {
+		switch e.Choose("gen", 8, "platform") {
+		case 5, 6:
 			en.Platform = "linux/amd64"
+		case 7:
+			en.Platform = "linux/s390x" // a platform most generated indexes do not have
 		}
 		switch e.Choose("gen", 5, "media") {
 		case 4:
@@ -305,6 +308,7 @@ func runC18(e *core.Env) {
 			en                          c18Entry
 		}
 		var expects []exp
+		var lacking []string          // selected tags whose index lacks the configured platform
 		selected := map[string]bool{} // tgt repo:tag selected
 		backupNames := map[string]string{}
 		for _, en := range entries {
@@ -373,14 +377,19 @@ func runC18(e *core.Env) {
 					want = ""
 					if gr := byDigest[d]; gr != nil {
 						for _, c := range gr.Root.Children {
-							if c.Platform != nil && c.Platform.OS == "linux" && c.Platform.Architecture == "amd64" {
+							if c.Platform != nil && c.Platform.OS == "linux" && c.Platform.Architecture == strings.TrimPrefix(en.Platform, "linux/") {
 								want = c.Digest
 								break
 							}
 						}
 					}
 					if want == "" {
-						continue // no such platform: nothing is promised (the run reports an error)
+						// no such platform in a selected tag: the tag cannot be mirrored, so the run cannot report success -
+						// unless the target already holds the whole index under that tag, which regsync leaves alone
+						if rp := tgt.Repos[p[2]]; rp == nil || rp.Tags[p[1]] != d {
+							lacking = append(lacking, p[0]+":"+p[1])
+						}
+						continue
 					}
 				}
 				expects = append(expects, exp{p[0], p[1], p[2], want, d, en})
@@ -420,10 +429,16 @@ func runC18(e *core.Env) {
 		simrt.Event("regsync once (round %d) -> %v", round, err)
 		if err != nil {
 			e.Probe("run-reported-error")
+			if len(lacking) > 0 {
+				e.Probe("run-failed-for-missing-platform")
+			}
 			// the property is conditional on a successful run
 			continue
 		}
 		e.Probe("run-ok")
+		if len(lacking) > 0 {
+			e.Violation("mirrored", "success-although-platform-missing", "the run reported success although the selected tag(s) %v have no image for the configured platform and so cannot have been mirrored", lacking)
+		}
 		post := snap(tgt)
 		// every selected source tag is mirrored, complete
 		for _, x := range expects {
